@@ -16,5 +16,5 @@ func TestVerif_C06(t *testing.T) {
 		out.emit(vpGenCase(rng, i, "c06"))
 	}
 	// level (ii): real session pairs, every flush through the socket fallback, lagging reader
-	vsRun(out, newVrand(uint64(venvInt("VERIF_SEED", 1))+0x51), venvInt("VERIF_N2", n/10), n)
+	vsRun(out, newVrand(uint64(venvInt("VERIF_SEED", 1))+0x51), venvInt("VERIF_N2", n/10), n, "c06s")
 }
